@@ -162,7 +162,14 @@ def decode_impl(case, data, e):
         n = msg.decode(data, e)
     except Exception as ex:  # noqa
         return msg, {'exc': py_impl.exc_class(ex)}
-    return msg, {'val': V.readback(msg, case.tree), 'size': n}
+    return msg, {'val': V.canon(case.tree, V.readback(msg, case.tree)), 'size': n}
+
+
+def canon_model(case, ans):
+    """canonical form of a model answer carrying a value"""
+    if 'val' in ans:
+        return {'val': V.canon(case.tree, ans['val']), 'size': ans['size']}
+    return ans
 
 
 def run_c02(tier):
@@ -215,8 +222,124 @@ def run_c02(tier):
                 elif re_enc != enc['bytes']:
                     chk.property_violation(casej, {'what': 're-encoding the decoded message differs', 'encoded': enc['bytes'], 're_encoded': re_enc})
             chk.corr_compared += 1
-            if dec != ans[2 * i + 1]:
+            if dec != canon_model(c, ans[2 * i + 1]):
                 chk.correspondence_mismatch('Py.decode = Message.decode', dict(casej, data=enc['bytes']), dec, ans[2 * i + 1])
+    finally:
+        corpus.close()
+    return chk.finish()
+
+
+# ----------------------------------------------------------------------------- C06
+
+def malformed_stream(rng, data, n_corrupt, n_random):
+    """byte strings derived from a valid encoding: every prefix, extensions, corruptions, random"""
+    out = []
+    n = len(data)
+    for cut in range(n):
+        out.append(('prefix', data[:cut]))
+    out.append(('valid', data))
+    out.append(('extended', data + b'\x00'))
+    out.append(('extended', data + bytes(rng.randrange(256) for _ in range(rng.randint(1, 9)))))
+    for _ in range(n_corrupt):
+        if not n:
+            break
+        b = bytearray(data)
+        for _ in range(rng.choice([1, 1, 1, 2, 3])):
+            i = rng.randrange(n)
+            b[i] = rng.choice([0, 1, 2, 3, 4, 5, 7, 8, 0x7f, 0x80, 0xff, rng.randrange(256), b[i] ^ (1 << rng.randrange(8))])
+        if rng.random() < 0.3:
+            b = b[:rng.randint(0, n)]
+        out.append(('corrupt', bytes(b)))
+    for _ in range(n_random):
+        out.append(('random', bytes(rng.randrange(256) for _ in range(rng.randint(0, max(4, n + 4))))))
+    return out
+
+
+def classify_c06(case, detail):
+    """known finding D21: the decoded greedy tail does not end aligned (exception documented in C02)"""
+    if detail.get('what', '').startswith('fixpoint') and detail.get('greedy_aligned') is False:
+        return 'D21'
+    return None
+
+
+def run_c06(tier):
+    import time
+    chk = core.Check('C06', tier)
+    chk.rule = ('for every message type of the corpus and several values: every prefix of the valid encoding, extensions, '
+                'corruptions of 1-3 bytes (control-word values 0/1/ff/bit flips, optionally truncated) and random strings; '
+                'a case = (type, bytes, byte order). Observed on the real codec: exception class or (value, size), then encode of the '
+                'result and the decode(encode()) fixpoint; the same bytes run through Py.decode of the Lean model. '
+                'non-trivial = distinct (type, bytes) that is not the untouched valid encoding.')
+    chk.lean = core.lean_obligations('C06', thorough=(tier == 'thorough'))
+    corpus = Corpus(chk, chk.scale(60, 600), dict(n_decls=8))
+    slow = 0.0
+    try:
+        reqs = corpus.deft_requests()
+        nd = len(reqs)
+        rows = []
+        for c in corpus.types:
+            for vi in range(chk.scale(2, 4)):
+                v = V.gen_value(chk.rng, c.tree, max_len=3)
+                e = chk.rng.choice(ENDIAN)
+                _, enc = encode_impl(c, v, e)
+                if 'bytes' not in enc:
+                    continue
+                data = bytes.fromhex(enc['bytes'])
+                for kind, bs in malformed_stream(chk.rng, data, chk.scale(12, 40), chk.scale(4, 12)):
+                    t0 = time.perf_counter()
+                    m, dec = decode_impl(c, bs, e)
+                    dt = time.perf_counter() - t0
+                    slow = max(slow, dt)
+                    fix = None
+                    if 'val' in dec:
+                        try:
+                            enc2 = m.encode(e)
+                            m3, dec3 = decode_impl(c, enc2, e)
+                            if 'val' in dec3:
+                                try:
+                                    enc3 = m3.encode(e).hex()
+                                except Exception as ex:  # noqa
+                                    enc3 = 'exc:' + py_impl.exc_class(ex)
+                            else:
+                                enc3 = None
+                            fix = {'enc2': enc2.hex(), 'dec3': dec3, 'enc3': enc3}
+                        except Exception as ex:  # noqa
+                            fix = {'encode_exc': py_impl.exc_class(ex)}
+                    rows.append((c, e, kind, bs, dec, fix, dt))
+                    reqs.append({'op': 'py_decode', 't': c.tid, 'data': bs.hex(), 'e': e})
+                    if 'val' in dec:
+                        reqs.append({'op': 'spec_chunks', 't': c.tid, 'v': V.denan(dec['val'])})
+        ans = client.batch(reqs, timeout=1800)[nd:]
+        k = 0
+        for c, e, kind, bs, dec, fix, dt in rows:
+            model = ans[k]
+            k += 1
+            gal = None
+            if 'val' in dec:
+                gal = ans[k].get('gal')
+                k += 1
+            casej = {'schema': c.text, 'type': c.name, 'data': bs.hex(), 'endianness': e, 'stream': kind}
+            chk.count((c.tree, bs.hex(), e), kind != 'valid')
+            chk.bump('stream:' + kind)
+            chk.bump('outcome:' + (dec.get('exc') or 'ok'))
+            if kind == 'corrupt':
+                chk.sample({'type': c.name, 'data': bs.hex(), 'endianness': e, 'outcome': dec}, limit=4)
+            if 'exc' in dec and dec['exc'] != 'ProphyError':
+                chk.property_violation(casej, {'what': 'decode raised %s (only ProphyError is allowed)' % dec['exc']})
+            if dt > 2.0:
+                chk.property_violation(casej, {'what': 'decode took %.1fs for %d bytes' % (dt, len(bs))})
+            if 'val' in dec:
+                if 'encode_exc' in fix:
+                    chk.property_violation(casej, {'what': 'decoded message does not encode: ' + fix['encode_exc'], 'decoded': dec})
+                elif 'nan' in json.dumps(dec['val']):
+                    chk.bump('fixpoint-skipped-nan')
+                elif fix['dec3'] != {'val': dec['val'], 'size': len(fix['enc2']) // 2} or fix['enc3'] != fix['enc2']:
+                    chk.property_violation(casej, {'what': 'fixpoint: decode(encode(decoded)) differs', 'decoded': dec, 'fix': fix,
+                                                   'greedy_aligned': gal}, classify_c06)
+            chk.corr_compared += 1
+            if dec != canon_model(c, model):
+                chk.correspondence_mismatch('Py.decode = Message.decode (malformed stream)', casej, dec, model)
+        chk.extra['slowest_decode_s'] = round(slow, 4)
     finally:
         corpus.close()
     return chk.finish()
